@@ -162,6 +162,32 @@ fn cases(tier: Tier) -> &'static Vec<Case> {
                 });
             }
         }
+        // bodies of megabytes (beyond any buffer, any chunk-size prefix width, any plausible
+        // cap): declared, chunked by 65536, chunked in one piece
+        let mib = 1usize << 20;
+        for n in if deep(tier) { vec![mib + 1, 3 * mib + 5] } else { vec![mib + 1] } {
+            let body = payload(n);
+            let mut framings: Vec<(String, Vec<u8>)> = Vec::new();
+            let mut m = head(CANON, None, Some(n), false);
+            m.extend_from_slice(&body);
+            framings.push(("cl".into(), m));
+            let mut m = head(CANON, Some("chunked"), None, true);
+            let mut sizes = vec![65536usize; n / 65536];
+            sizes.push(n % 65536);
+            m.extend_from_slice(&chunked(&body, &sizes, SizeSyntax::Lower));
+            framings.push(("chunked-by65536".into(), m));
+            let mut m = head(CANON, Some("chunked"), None, true);
+            m.extend_from_slice(&chunked(&body, &[n], SizeSyntax::Upper));
+            framings.push(("chunked-whole".into(), m));
+            let sz = |s: Vec<usize>| ReadPlan::Sizes { sizes: s, limit: None, extra: 2, as_reader_calls: 1 };
+            for (fl, msg) in &framings {
+                for (rl, rp) in [("r4096", sz(vec![4096])), ("r100000", sz(vec![100000])), ("rn+1", sz(vec![n + 1])), ("read_to_end", ReadPlan::ReadToEnd)] {
+                    let mut bytes = msg.clone();
+                    bytes.extend_from_slice(&get("/next"));
+                    v.push(Case { label: format!("len{}/{}/{}/tail-get", n, fl, rl), bytes, read: rp, half_close: false, nontrivial: true });
+                }
+            }
+        }
         // chunk-size syntax, header-name case: lengths <= 1025, read sizes {1, 7, 4096}
         // thorough: the syntax / letter-case variants for every length, not only the small ones
         let small: Vec<usize> = lengths(tier).into_iter().filter(|&n| (n <= 1025 || (deep(tier) && n <= 20000)) && n > 0).collect();
@@ -298,7 +324,7 @@ impl Check for C03 {
     }
     fn rule(&self, tier: Tier) -> String {
         format!(
-            "body length {:?} x framing {{Content-Length; chunked with chunkings one/bytewise/cut1/cutlast/cut1024/8k/thirds; Content-Length together with chunked in both header orders with equal and different values; none; Connection: upgrade}} x application read program {:?} (+2 reads after end-of-stream) x following bytes {:?}; plus chunk-size syntax {:?} and header-name/value letter case for lengths <= 1025 with read sizes 1/7/4096; plus every composition of bodies of 1..{} bytes; {} conversations, each on a real connection; bytes obtained, end-of-stream position and stickiness, body_length() and the fate of the following bytes compared with the reference model; non-trivial = body length > 0",
+            "bodies of 1 MiB+1 (thorough: also 3 MiB+5) declared / chunked by 65536 / chunked in one piece, read by 4096 / 100000 / n+1 / read_to_end; body length {:?} x framing {{Content-Length; chunked with chunkings one/bytewise/cut1/cutlast/cut1024/8k/thirds; Content-Length together with chunked in both header orders with equal and different values; none; Connection: upgrade}} x application read program {:?} (+2 reads after end-of-stream) x following bytes {:?}; plus chunk-size syntax {:?} and header-name/value letter case for lengths <= 1025 with read sizes 1/7/4096; plus every composition of bodies of 1..{} bytes; {} conversations, each on a real connection; bytes obtained, end-of-stream position and stickiness, body_length() and the fate of the following bytes compared with the reference model; non-trivial = body length > 0",
             lengths(tier), read_programs(0, tier).iter().map(|x| x.0.clone()).collect::<Vec<_>>(), tails(tier).iter().map(|t| t.0).collect::<Vec<_>>(), ALL_SYNTAX, if full(tier) { 6 } else { 4 }, cases(tier).len()
         )
     }
